@@ -229,12 +229,19 @@ pub fn run(a: &Args) -> Ctx {
     // several exactly-full records in one chain are what makes a relocation cascade towards the bucket head
     // the fourth alphabet: records of 897..1017 estimated bytes live in the 1024-byte slot, whose size field is one
     // byte wider than the estimate assumes (1000, 1005, 900), next to exactly-full short ones
-    let alphabets: [&[usize]; 4] = [&[10, 10, 10, 11, 9], &[10, 18, 10, 18, 11], &[9, 10, 19, 18, 10], &[1000, 1005, 10, 900, 11]];
+    // the fifth: keys of 1142 bytes, whose records (1151 bytes with two-byte offsets) leave one byte of slack in their
+    // 1152-byte slot on the shared first-fit list: one byte more in an offset field and they move to a 1280-byte slot
+    let alphabets: [&[usize]; 5] = [&[10, 10, 10, 11, 9], &[10, 18, 10, 18, 11], &[9, 10, 19, 18, 10], &[1000, 1005, 10, 900, 11], &[1142, 1142, 10, 1142, 11]];
     // shards 0..17 take the first alphabet on all 18 start images, 18..35 the second, and so on
-    let lens_all = alphabets[((a.shard / variants.len()) % 4) as usize];
+    let lens_all = alphabets[((a.shard / variants.len()) % 5) as usize];
     let nk = 4 + ((salt / 3) % 2) as usize;
     let mut ctr = 7 * salt;
-    let keys: Vec<Vec<u8>> = (0..nk).map(|i| key_in_bucket(n, b, lens_all[i], b'k', &mut ctr)).collect();
+    let mut keys: Vec<Vec<u8>> = (0..nk).map(|i| key_in_bucket(n, b, lens_all[i], b'k', &mut ctr)).collect();
+    // the empty key hashes to bucket 0: where that is the bucket under exploration, every second shard has it in the chain
+    if bucket_of(&[], n) == b && salt % 2 == 0 {
+        let last = keys.len() - 1;
+        keys[last] = Vec::new();
+    }
     // the last set keeps the shared first-fit list of slots >= 1024 bytes busy with three different sizes
     // (slots 1152, 1408, 1536): a fitting free slot behind a non-fitting one, unlinking from the middle
     let val_sets: [&[u32]; 4] = [&[14, 15, 300, 1100], &[0, 22, 23, 5000], &[14, 126, 127, 2000], &[1100, 1400, 1500, 14]];
